@@ -94,9 +94,10 @@ impl<'tree> Graph<'tree> {
 
     pub fn display_json(&self, path: Option<&Path>) -> std::io::Result<()> {
         let s = serde_json::to_string_pretty(self).unwrap();
-        path.map_or(stdout().write_all(s.as_bytes()), |path| {
-            File::create(path)?.write_all(s.as_bytes())
-        })
+        match path {
+            None => stdout().write_all(s.as_bytes()),
+            Some(path) => File::create(path)?.write_all(s.as_bytes()),
+        }
     }
 
     // Returns an iterator of references to all of the nodes in the graph.
